@@ -11,6 +11,8 @@ it matters the distance between the stored value `x` and the exact serial is a h
 -/
 import XlModel.Lemmas.DateDecode
 import XlModel.Lemmas.DateCount
+import XlModel.Lemmas.DateOrder
+import XlModel.Lemmas.DateFloat
 
 namespace XlModel.Props.C19
 open XlModel XlModel.Date XlModel.Date.Impl
@@ -69,6 +71,12 @@ theorem civil_roundtrip_date (y m d : Int) (h : ValidDate y m d) :
 theorem civil_injective (y m d y' m' d' : Int) (h : ValidDate y m d) (h' : ValidDate y' m' d')
     (e : daysFromCivil y m d = daysFromCivil y' m' d') : (y, m, d) = (y', m', d') := by
   rw [← civil_days_civil y m d h, ← civil_days_civil y' m' d' h', e]
+
+/-- clause "calendar arithmetic": for all valid dates of all years, calendar order (year, month,
+day lexicographic) ⇔ order of day numbers — `daysFromCivil` is strictly monotone -/
+theorem civil_monotone (y m d y' m' d' : Int) (h : ValidDate y m d) (h' : ValidDate y' m' d') :
+    DateLt (y, m, d) (y', m', d') ↔ daysFromCivil y m d < daysFromCivil y' m' d' :=
+  dfc_lt_iff y m d y' m' d' h h'
 
 /-! ## encoding: `timeToExcelTime` is the plain difference to the epoch -/
 
@@ -219,6 +227,38 @@ theorem serial_monotone_stored (t t' : Int) (date1904 : Bool) (x x' : Rat) (h : 
   rw [hd, pow2_30, hc] at hx hx'
   exact float_order _ _ x x' (by omega) hx hx'
 
+/-- clause "a later wall-clock time never yields a smaller serial", stated on calendar dates and
+clock readings: for any two valid wall clocks (any years, both systems), later in
+(year, month, day, hour, minute, second) order ⇒ exact serial not smaller -/
+theorem serial_monotone_wallclock (a b : Civil) (date1904 : Bool) (ha : ValidWall a) (hb : ValidWall b)
+    (h : WallLt a b) :
+    timeToExcelTimeNs (instantOf a) date1904 ≤ timeToExcelTimeNs (instantOf b) date1904 :=
+  serial_monotone _ _ date1904 (by have := instant_lt_of_wallLt a b ha hb h; omega)
+
+/-- … and from the first day of the system on (1899-12-31 resp. 1904-01-01) strictly larger, by at
+least one second; the values actually stored (each within 2⁻³⁰ day of its exact serial) are then
+strictly increasing as well -/
+theorem serial_strict_monotone_wallclock (a b : Civil) (date1904 : Bool) (x x' : Rat)
+    (ha : ValidWall a) (hb : ValidWall b) (h : WallLt a b)
+    (h0 : if date1904 then -24107 ≤ daysFromCivil a.y a.m a.d else -25568 ≤ daysFromCivil a.y a.m a.d)
+    (hx : |x - timeToExcelTime (instantOf a) date1904| ≤ pow2 30)
+    (hx' : |x' - timeToExcelTime (instantOf b) date1904| ≤ pow2 30) :
+    timeToExcelTimeNs (instantOf a) date1904 + 1000000000 ≤ timeToExcelTimeNs (instantOf b) date1904 ∧ x < x' := by
+  have hi := instant_lt_of_wallLt a b ha hb h
+  obtain ⟨_, e4, emin, _⟩ := epochs_ok
+  have hstart : if date1904 then epoch1904 ≤ instantOf a else minTime1900 ≤ instantOf a := by
+    obtain ⟨_, a1, _, a3, _, a5, _, a7⟩ := ha
+    unfold instantOf
+    have hns : nsPerSec = 1000000000 := by decide
+    rw [hns, a7, e4, emin]
+    cases date1904
+    · simp only [Bool.false_eq_true, if_false] at h0 ⊢; omega
+    · simp only [if_true] at h0 ⊢; omega
+  constructor
+  · have := serial_strict_monotone (instantOf a) (instantOf b) date1904 (by omega) hstart
+    omega
+  · exact serial_monotone_stored (instantOf a) (instantOf b) date1904 x x' hi hstart hx hx'
+
 /-! ## decoding and the round trip -/
 
 /-- mechanism "whole-day AddDate plus nanosecond fraction with rounding epsilon, Julian path below
@@ -230,6 +270,27 @@ theorem decode_tolerant (x : Rat) (date1904 : Bool) (D k : Int) (hD0 : 0 ≤ D) 
     timeFromExcelTime x date1904 =
       (if date1904 then epoch1904 else epoch1900) + (D * 86400000000000 + k * 1000000000) :=
   decode_both x date1904 D k hD0 hk0 hk hx
+
+/-- mechanism "nanosecond fraction with rounding epsilon" for EVERY rational serial x ≥ 62, whole
+second or not: the decoded instant is the epoch plus `secondRule ⌊86400e9·x + 86400⌋` — x in
+nanoseconds plus the 86.4 µs epsilon, cut to an integer, rounded up to the next second iff the
+sub-second part is at least 501 ms, else truncated -/
+theorem decode_rounding_rule (x : Rat) (date1904 : Bool) (h : (62 : Rat) ≤ x) :
+    timeFromExcelTime x date1904 =
+      (if date1904 then epoch1904 else epoch1900) + secondRule ⌊(86400000000000 : Rat) * x + 86400⌋ :=
+  decode_gregorian_rule x date1904 h
+
+/-- sub-second instants (beyond the property's "to the second"): a value stored within 2⁻³⁰ day of
+the exact serial of day D, second k, f nanoseconds reads back as second k if f ≤ 0.500833 s and as
+second k+1 if f ≥ 0.5009941 s -/
+theorem decode_subsecond_seconds (x : Rat) (date1904 : Bool) (D k f : Int) (h62 : (62 : Rat) ≤ x)
+    (hk0 : 0 ≤ k) (hf0 : 0 ≤ f) (hf : f < 1000000000)
+    (hx : |x - ((D : Rat) + ((k : Rat) * 1000000000 + (f : Rat)) / 86400000000000)| ≤ 1 / 1073741824) :
+    (f ≤ 500833000 → timeFromExcelTime x date1904 =
+        (if date1904 then epoch1904 else epoch1900) + (D * 86400000000000 + k * 1000000000)) ∧
+    (500994100 ≤ f → timeFromExcelTime x date1904 =
+        (if date1904 then epoch1904 else epoch1900) + (D * 86400000000000 + (k + 1) * 1000000000)) :=
+  decode_subsecond x date1904 D k f h62 hk0 hf0 hf hx
 
 /-- what `setCellTime` stores, for every instant and zone offset: a number iff the wall clock is
 strictly after the system's first instant (1899-12-31T00:00 resp. 1904-01-01T00:00) -/
@@ -351,6 +412,149 @@ theorem stored_numeric_1900 (y m d h mi s off : Int)
   unfold instantOf; simp only []
   have hns : nsPerSec = 1000000000 := by decide
   rw [hns]; omega
+
+/-- what is stored, as a function of the wall-clock instant only -/
+theorem setCellTime_wall (w off : Int) (date1904 : Bool) :
+    setCellTime (w - off * nsPerSec) off date1904 =
+      if timeToExcelTimeNs w date1904 > 0 then .num (timeToExcelTimeNs w date1904) else .text := by
+  unfold setCellTime; simp only [Int.sub_add_cancel]
+
+/-- the round trip clause at FULL strength in the 1900 system: every valid date from 1900-03-01 on
+(no upper bound), every clock reading, every zone offset: the value is stored as the number
+`timeToExcelTimeNs / dayNanoseconds`, and every x within `decTol` of it reads back as exactly the
+original wall clock -/
+theorem serial_roundtrip_1900 (c : Civil) (off : Int) (x : Rat) (hw : ValidWall c)
+    (hr : -25508 ≤ daysFromCivil c.y c.m c.d)
+    (hx : |x - timeToExcelTime (instantOf c) false| ≤ decTol (timeToExcelTimeNs (instantOf c) false / 86400000000000)) :
+    setCellTime (instantOf c - off * nsPerSec) off false = .num (timeToExcelTimeNs (instantOf c) false) ∧
+    (excelDateToTime x false).map civilOf = .ok c := by
+  obtain ⟨hv, h0, h1, m0, m1, s0, s1, hns0⟩ := hw
+  have hc : c = { y := c.y, m := c.m, d := c.d, h := c.h, mi := c.mi, s := c.s, ns := 0 } := by
+    cases c; simp only [] at hns0; subst hns0; rfl
+  obtain ⟨n, hn⟩ := stored_numeric_1900 c.y c.m c.d c.h c.mi c.s off hr h0 m0 s0
+  rw [← hc] at hn
+  have hn' := hn
+  rw [setCellTime_wall] at hn'
+  have hnum : n = timeToExcelTimeNs (instantOf c) false := by
+    split at hn'
+    · injection hn' with e; exact e.symm
+    · cases hn'
+  subst hnum
+  refine ⟨hn, ?_⟩
+  have := serial_roundtrip_partial c.y c.m c.d c.h c.mi c.s off false x _ hv
+    (by simp only [Bool.false_eq_true, if_false]; exact hr) h0 h1 m0 m1 s0 s1 (by rw [← hc]; exact hn)
+    (by unfold timeToExcelTime at hx; exact hx)
+  rw [← hc] at this
+  exact this
+
+/-- the round trip clause in the 1904 system, as strong as the code allows: for every valid date
+from 1904-01-01 on, every clock reading, every zone offset, EITHER the wall clock is exactly
+1904-01-01 00:00:00 and the value is stored as text (the finding), OR the value is stored as the
+number `timeToExcelTimeNs / dayNanoseconds` and every x within `decTol` of it reads back as exactly
+the original wall clock -/
+theorem serial_roundtrip_1904 (c : Civil) (off : Int) (x : Rat) (hw : ValidWall c)
+    (hr : -24107 ≤ daysFromCivil c.y c.m c.d)
+    (hx : |x - timeToExcelTime (instantOf c) true| ≤ decTol (timeToExcelTimeNs (instantOf c) true / 86400000000000)) :
+    (c = { y := 1904, m := 1, d := 1, h := 0, mi := 0, s := 0, ns := 0 } ∧
+      setCellTime (instantOf c - off * nsPerSec) off true = .text) ∨
+    (setCellTime (instantOf c - off * nsPerSec) off true = .num (timeToExcelTimeNs (instantOf c) true) ∧
+      (excelDateToTime x true).map civilOf = .ok c) := by
+  obtain ⟨hv, h0, h1, m0, m1, s0, s1, hns0⟩ := hw
+  have hc : c = { y := c.y, m := c.m, d := c.d, h := c.h, mi := c.mi, s := c.s, ns := 0 } := by
+    cases c; simp only [] at hns0; subst hns0; rfl
+  have hclosed := serial_daycount_closed c.y c.m c.d c.h c.mi c.s true
+    (by simp only [if_true]; exact hr) h0 m0 s0
+  rw [← hc] at hclosed
+  simp only [if_true] at hclosed
+  by_cases hpos : timeToExcelTimeNs (instantOf c) true > 0
+  · right
+    have hst : setCellTime (instantOf c - off * nsPerSec) off true = .num (timeToExcelTimeNs (instantOf c) true) := by
+      rw [setCellTime_wall, if_pos hpos]
+    refine ⟨hst, ?_⟩
+    have := serial_roundtrip_partial c.y c.m c.d c.h c.mi c.s off true x _ hv
+      (by simp only [if_true]; exact hr) h0 h1 m0 m1 s0 s1 (by rw [← hc]; exact hst)
+      (by unfold timeToExcelTime at hx; exact hx)
+    rw [← hc] at this
+    exact this
+  · left
+    have hst : setCellTime (instantOf c - off * nsPerSec) off true = .text := by
+      rw [setCellTime_wall, if_neg hpos]
+    refine ⟨?_, hst⟩
+    -- serial 0 with a date ≥ 1904-01-01 forces day number −24107 and clock 00:00:00
+    have hz : daysFromCivil c.y c.m c.d = -24107 ∧ c.h = 0 ∧ c.mi = 0 ∧ c.s = 0 := by
+      rw [hclosed] at hpos; omega
+    have hdate := civil_injective c.y c.m c.d 1904 1 1 hv (by decide)
+      (by rw [hz.1]; decide)
+    injection hdate with e1 e23
+    injection e23 with e2 e3
+    rw [hc, e1, e2, e3, hz.2.1, hz.2.2.1, hz.2.2.2]
+
+/-! ## float layer: the error of the stored value is derived, not assumed -/
+
+/-- "float rounding of the day fraction": `Impl.timeToExcelTimeF` spells out every float64 operation
+of `timeToExcelTime` (int→float conversions, the two divisions, three additions, the chunk
+accumulator) and is compared bit for bit with the Go function on every `encf` transcript line.
+For EVERY rounding function that obeys the standard model |rnd q − q| ≤ 2⁻⁵³·|q| and is exact on
+integers up to 2⁵³ (fields of `Rounding`, no axiom), every instant with serial below 2 958 466
+(10000-01-01; < 2²²) and both date systems, its result is within `encTol` of the exact serial -/
+theorem encode_error (R : Rounding) (t : Int) (date1904 : Bool)
+    (hN : timeToExcelTimeNs t date1904 < 2958466 * 86400000000000) :
+    |timeToExcelTimeF (ratOps R) t date1904 - timeToExcelTime t date1904|
+      ≤ encTol (timeToExcelTimeNs t date1904) :=
+  encode_error_bound R t date1904 hN
+
+/-- the two laws are satisfiable (exact arithmetic), and then the float-level function is the exact serial
+up to `encTol` trivially; so `encode_error` is not vacuous -/
+theorem rounding_satisfiable : ∃ R : Rounding, ∀ q : Rat, R.rnd q = q := ⟨Rounding.exact, fun _ => rfl⟩
+
+/-- the measured/derived encoder bound is inside the decoder's tolerance on both paths -/
+theorem encTol_le_decTol (n : Int) : encTol n ≤ decTol (n / 86400000000000) := by
+  have hnd : nsPerDay = 86400000000000 := by decide
+  unfold encTol decTol
+  rw [hnd]
+  by_cases h1 : n < 64 * 86400000000000
+  · rw [if_pos h1]
+    split
+    · rw [pow2_40, pow2_38]; norm_num
+    · rw [pow2_40, pow2_18]; norm_num
+  · rw [if_neg h1, if_neg (by omega), pow2_30, pow2_18]; norm_num
+
+/-- round trip with the float error DERIVED (1900 system, the whole property range 1900-03-01 …
+9999-12-31, every clock reading and zone offset): under the standard model of float64 for the
+encoder, the value `timeToExcelTime` computes reads back as exactly the original wall clock.
+(The decoder is the exact-arithmetic model; its own float roundings stay measured, see design.) -/
+theorem serial_roundtrip_stdmodel_1900 (R : Rounding) (c : Civil) (off : Int) (hw : ValidWall c)
+    (hr : -25508 ≤ daysFromCivil c.y c.m c.d) (hr2 : daysFromCivil c.y c.m c.d ≤ 2932896) :
+    setCellTime (instantOf c - off * nsPerSec) off false = .num (timeToExcelTimeNs (instantOf c) false) ∧
+    (excelDateToTime (timeToExcelTimeF (ratOps R) (instantOf c) false) false).map civilOf = .ok c := by
+  obtain ⟨hv, h0, h1, m0, m1, s0, s1, hns0⟩ := hw
+  have hc : c = { y := c.y, m := c.m, d := c.d, h := c.h, mi := c.mi, s := c.s, ns := 0 } := by
+    cases c; simp only [] at hns0; subst hns0; rfl
+  have hclosed := serial_daycount_closed c.y c.m c.d c.h c.mi c.s false
+    (by simp only [Bool.false_eq_true, if_false]; exact hr) h0 m0 s0
+  rw [← hc] at hclosed
+  simp only [Bool.false_eq_true, if_false] at hclosed
+  have hN : timeToExcelTimeNs (instantOf c) false < 2958466 * 86400000000000 := by rw [hclosed]; omega
+  have he := encode_error R (instantOf c) false hN
+  exact serial_roundtrip_1900 c off _ ⟨hv, h0, h1, m0, m1, s0, s1, hns0⟩ hr (le_trans he (encTol_le_decTol _))
+
+/-- the same in the 1904 system (1904-01-01 … 9999-12-31), with the one exception stated exactly -/
+theorem serial_roundtrip_stdmodel_1904 (R : Rounding) (c : Civil) (off : Int) (hw : ValidWall c)
+    (hr : -24107 ≤ daysFromCivil c.y c.m c.d) (hr2 : daysFromCivil c.y c.m c.d ≤ 2932896) :
+    (c = { y := 1904, m := 1, d := 1, h := 0, mi := 0, s := 0, ns := 0 } ∧
+      setCellTime (instantOf c - off * nsPerSec) off true = .text) ∨
+    (setCellTime (instantOf c - off * nsPerSec) off true = .num (timeToExcelTimeNs (instantOf c) true) ∧
+      (excelDateToTime (timeToExcelTimeF (ratOps R) (instantOf c) true) true).map civilOf = .ok c) := by
+  obtain ⟨hv, h0, h1, m0, m1, s0, s1, hns0⟩ := hw
+  have hc : c = { y := c.y, m := c.m, d := c.d, h := c.h, mi := c.mi, s := c.s, ns := 0 } := by
+    cases c; simp only [] at hns0; subst hns0; rfl
+  have hclosed := serial_daycount_closed c.y c.m c.d c.h c.mi c.s true
+    (by simp only [if_true]; exact hr) h0 m0 s0
+  rw [← hc] at hclosed
+  simp only [if_true] at hclosed
+  have hN : timeToExcelTimeNs (instantOf c) true < 2958466 * 86400000000000 := by rw [hclosed]; omega
+  have he := encode_error R (instantOf c) true hN
+  exact serial_roundtrip_1904 c off _ ⟨hv, h0, h1, m0, m1, s0, s1, hns0⟩ hr (le_trans he (encTol_le_decTol _))
 
 /-- FINDING (known_findings.d key `enc:zero-serial-stored-as-text`): in the 1904 system the first
 instant of the range, 1904-01-01T00:00:00 (serial 0), read in any zone, is stored as text, not as a
